@@ -378,7 +378,7 @@ def gen_response(rng, lax=True):
     return head + body
 
 
-MUTATIONS = ["dup_cl", "sign_cl", "space_cl", "us_cl", "uni_cl", "empty_cl", "cl_te", "te_list", "te_twice", "te_bad",
+MUTATIONS = ["huge_cl", "dup_cl", "sign_cl", "space_cl", "us_cl", "uni_cl", "empty_cl", "cl_te", "te_list", "te_twice", "te_bad",
              "lf_for_crlf", "cr_only", "obs_fold", "ctl_value", "ctl_name", "ctl_target", "ws_before_colon", "ws_name_lead",
              "no_colon", "chunk_plus", "chunk_0x", "chunk_space", "chunk_empty", "chunk_big", "chunk_ext_lf", "chunk_no_crlf",
              "bad_trailer", "no_host", "dup_host", "empty_host", "byte_flip", "byte_insert", "byte_delete", "truncate",
@@ -394,6 +394,9 @@ def mutate(rng, data, kind=None):
         i = d.find(b"\r\n")
         return d[:i + 2] + extra + d[i + 2:] if i >= 0 else d + extra
 
+    if kind == "huge_cl":
+        n = rng.choice([4299, 4300, 4301, 5000])
+        return after_first_line(b"Content-Length: " + rng.choice([b"0", b"1"]) * n + b"\r\n"), kind
     if kind == "dup_cl":
         return after_first_line(b"Content-Length: 3\r\nContent-Length: 3\r\n"), kind
     if kind in ("sign_cl", "space_cl", "us_cl", "uni_cl", "empty_cl"):
